@@ -114,12 +114,18 @@ def check(c, item):
     times = np.array(GRIDS[gname])
     c.count('states')
     case = dict(spec=sp, grid=gname, edited=via_edits)
-    if via_edits:
-        from .. import e1
-        m = e1.Impl(sp, False, edited=True).model      # the same definition reached through edits, rejected calls in between
-        m.set_species({s_: float(v_) for s_, v_ in sp['x0'].items()})
-    else:
-        m = to_model(sp)
+    try:
+        if via_edits:
+            from .. import e1
+            m = e1.Impl(sp, False, edited=True).model      # the same definition reached through edits, rejected calls in between
+            m.set_species({s_: float(v_) for s_, v_ in sp['x0'].items()})
+        else:
+            m = to_model(sp)
+    except RuntimeError:
+        raise
+    except Exception as e:
+        c.violation('C04/%s%s/build-exception' % (sp['name'], '-edited' if via_edits else ''), 'a well-formed model was rejected: %r' % e, case)
+        return
     order = m.get_species_list()
     perm = [order.index(s) for s in sp['species']]
     ref = reference(sp, times)
